@@ -403,11 +403,11 @@ def _chunks(rng, n, lo, hi):
 
 
 # ------------------------------------------------------------------------------------------ input classes (signatures)
-def msg_class(cm, fix=(False, False, False, False)):
+def msg_class(cm, fix=(False, False, False, False, False)):
     """The input class of a message, as used in violation signatures (None: an ordinary message).  fix = the
     variant of the code under test (FixTE, FixNoBody, Fix1xx, FixBadCL as probed by the driver): a class whose
     defect is repaired in that variant is an ordinary input there."""
-    fix_te, fix_nb, fix_1xx, fix_cl = fix
+    fix_te, fix_nb, fix_1xx, fix_cl = fix[:4]
     toks = [untok(t) for (p, c, e, t) in cm['lines'] if t is not None and p == 'head']
     bodyless = cm['method'] == 'HEAD' or cm['status'] in (204, 304)
     if cm['ihead'] and not fix_1xx:
